@@ -50,7 +50,7 @@ EXPECTED_PROBES = ['reference_computed_in_isolated_process', 'second_model_alive
 def arms(tier):
     if tier == "thorough":
         return [("fly", 900_000), ("pre", 300_000), ("abort", 300_000)]
-    return [("fly", 36_000), ("pre", 12_000), ("abort", 12_000)]
+    return [("fly", 24_000), ("pre", 8_000), ("abort", 8_000)]
 
 
 def hist_slice(tier):
